@@ -213,14 +213,15 @@ def run(ctx):
             rets = [r for r in ast.walk(st) if isinstance(r, ast.Return)]
             vals = {norm(r.value) for r in rets}
             assigns = {norm(a.value) for a in ast.walk(st) if isinstance(a, ast.Assign)}
-            jok = f"{jobj}.isoformat()" in (vals | assigns)
+            jok = any(_is_lossless_isoformat(x, jobj) for r in rets for x in [r.value]) or any(
+                _is_lossless_isoformat(a.value, jobj) for a in ast.walk(st) if isinstance(a, ast.Assign))
     ctx.check(jok, "R13.4", "JsonRecordPacker.pack_obj:datetime", "JSON does not store timestamps as isoformat()", jp, "obj.isoformat()", key="R13.4:json:datetime-form")
     dbi = ctx.anchor_func("flow.record.adapter.sqlite.db_insert_record")
     sok = False
     for st in ast.walk(dbi):
         if isinstance(st, ast.If) and is_datetime_test(prog, dbi._module, st.test):
             v = norm(st.test.args[0])
-            sok = any(isinstance(a, ast.Assign) and norm(a.value) == f"{v}.isoformat()" for a in ast.walk(ast.Module(body=st.body, type_ignores=[])))
+            sok = any(isinstance(a, ast.Assign) and _is_lossless_isoformat(a.value, v) for a in ast.walk(ast.Module(body=st.body, type_ignores=[])))
     ctx.check(sok, "R13.4", "sqlite.db_insert_record:datetime", "SQLite does not store timestamps as isoformat() under an isinstance(value, datetime) test", dbi, "value.isoformat()",
               key="R13.4:sqlite:datetime-form")
     dts = ctx.anchor_func("flow.record.adapter.avro.descriptor_to_schema")
@@ -275,3 +276,17 @@ def _may_include_datetime(prog, module, isinstance_call) -> bool:
         if name in ("builtins.object", "datetime.date", "datetime.datetime", "flow.record.base.FieldType"):
             return True
     return False
+
+
+def _is_lossless_isoformat(e, recv: str) -> bool:
+    """recv.isoformat() with at most a separator argument; a timespec other than auto/microseconds drops precision."""
+    if not (isinstance(e, ast.Call) and isinstance(e.func, ast.Attribute) and e.func.attr == "isoformat" and norm(e.func.value) == recv):
+        return False
+    if len(e.args) > 1:
+        return False
+    for k in e.keywords:
+        if k.arg == "timespec" and not (isinstance(k.value, ast.Constant) and k.value.value in ("auto", "microseconds")):
+            return False
+        if k.arg not in ("sep", "timespec"):
+            return False
+    return True
